@@ -571,6 +571,7 @@ func main() {
 			"verdicts_nft":                3000,
 			"verdicts_app-policy-checker": 3000,
 			"verdicts_bpf":                3000,
+			"bpf_leg_split_programs":      40,
 			"verdict_allowed_iptables":    300,
 			"verdict_denied_iptables":     300,
 			"rules_rendered_iptables":     5000,
